@@ -247,7 +247,7 @@ def still_fails(line, cfg):
         if a is None or b is None or "bad-request" in (a + b) or a in ANCH_ERRS or b in ANCH_ERRS:
             return None
         return (a, b) if a != b else None
-    kv["cfgs"] = cfg
+    kv["pcfg" if op == "packed" else "cfgs"] = cfg
     l = fmt_req(op, kv)
     impl = index_resp(run_impl([l], "shrink")[0])
     model = index_resp(run_model([l]))
@@ -261,7 +261,7 @@ def shrink(line, cfg, budget=150):
     """Greedy shrink of a failing request: drop patterns, shorten patterns,
     shorten the haystack, keeping a disagreement between impl and model."""
     op, kv = parse_req(line)
-    kv["cfgs"] = cfg
+    kv["pcfg" if op == "packed" else "cfgs"] = cfg
     best = fmt_req(op, kv)
     steps = 0
 
